@@ -27,7 +27,7 @@ ROWS = [
     ("C13", "fixed", "fix: MeshLine1 adaptive refinement remaps", "F2",
      "tags-subdomain-not-children-of-old-cells/refine_adaptive/MeshLine1",
      "MeshLine1.refined(marked): elements reordered (unmarked first) but subdomain indices kept"),
-    ("C13", "fixed", "fix: MeshTet1 adaptive refinement", "F1",
+    ("C13", "fixed", "fix: MeshTet1 adaptive refinement carries", "F1",
      "tags-subdomain-not-children-of-old-cells/refine_adaptive/MeshTet1",
      "MeshTet1.refined(marked): subdomains (and boundaries) kept the indices of the unrefined mesh"),
     ("C13", "fixed", "fix: Mesh.refined warns", "F5a",
